@@ -60,3 +60,51 @@
         let out = env.render_named_str("t.html", "{{ v|escape }}|{{ v|escape|escape }}|{{ v|e|upper|e }}", crate::context! { v => "<&>" }).unwrap();
         assert!(out == "&lt;&amp;&gt;|&lt;&amp;&gt;|&LT;&AMP;&GT;" || out == "&lt;&amp;&gt;|&lt;&amp;&gt;|&amp;LT;&amp;AMP;&amp;GT;", "{out}");
     }
+
+//# ob name=safe_capture_filters_native role=native_bounded fn=filters::{replace,join,upper,lower,capitalize,trim,title}+value::argtypes::StringInput::{format,preserve_safety} kind=bounded bound="4 kinds of captured (already escaped, safe) output {set-block, macro result, call-block caller(), filter block} x 16 safety-aware filter expressions combining the capture with unsafe data in every argument position (needle present / absent / data-dependent, joiner and items) x 2 data/markup pairs chosen so that every metacharacter in the output can be attributed (quotes only in the data with angle brackets only in the markup, and the reverse) x 3 template names" stmt="when a safety-aware filter combines captured output with unsafe data, the data is escaped exactly once (no raw < > \" ' from data) and the captured output is not escaped a second time, whether or not the needle occurs and whichever metacharacters the data contains"
+    fn safe_capture_filters_native() {
+        use crate::Environment;
+        // (data, markup of the capture, raw characters that can only come from data, entity prefixes that can only come from escaping the markup or escaping twice)
+        let pairs: [(&str, &str, &[char], &[&str]); 2] = [
+            ("x\" y='z", "<p>M</p>", &['"', '\''], &["&lt;", "&gt;", "&amp;"]),
+            ("a<b>c", "say \"hi\" 'M'", &['<', '>'], &["&quot;", "&#34;", "&#x27;", "&#39;", "&amp;"]),
+        ];
+        // C is the captured value, v the unsafe data
+        let exprs = [
+            "C", "C|trim", "C|upper|lower", "C|capitalize|lower", "C|replace('@@', v)", "C|replace('M', v)", "C|replace(v, 'x')", "C|replace('M', v)|replace('@@', v)",
+            "C|replace('M', C)", "[C, v]|join(', ')", "[v, C]|join(', ')", "[C, C]|join(v)", "[v, v]|join(C)", "[C, v, C]|join('')", "[C]|join(v)|trim", "C|replace('M', [v, v]|join(C))",
+        ];
+        let captures = [
+            "{% set c %}MARKUP{% endset %}{{ EXPR }}",
+            "{% macro m() %}MARKUP{% endmacro %}{% set c = m() %}{{ EXPR }}",
+            "{% macro w() %}{% set c = caller() %}{{ EXPR }}{% endmacro %}{% call w() %}MARKUP{% endcall %}",
+        ];
+        let mut n = 0;
+        for name in ["x.html", "y.xml", "dir/z.htm"] {
+            for (data, markup, raw_from_data, forbidden_entities) in pairs {
+                let env = Environment::new();
+                let check = |src: &str| {
+                    let out = match env.render_named_str(name, src, crate::context! { v => data }) { Ok(o) => o, Err(e) => panic!("{name}: {src:?} failed: {e}") };
+                    for ch in raw_from_data { assert!(!out.contains(*ch), "{name}: raw {ch:?} from data in the output of {src:?}: {out:?}"); }
+                    let low = out.to_lowercase();
+                    for ent in forbidden_entities { assert!(!low.contains(ent), "{name}: {ent} in the output of {src:?} (captured output escaped again, or data escaped twice): {out:?}"); }
+                };
+                for cap in captures { for e in exprs {
+                    check(&cap.replace("MARKUP", markup).replace("EXPR", &e.replace('C', "c")));
+                    n += 1;
+                }}
+                // the filter block form: the filter is applied to the captured body directly
+                for f in ["replace('@@', v)", "replace('M', v)", "replace(v, 'x')", "trim", "upper|lower", "replace('M', v)|replace('@@', v)"] {
+                    let mut src = String::new();
+                    for part in f.split('|').rev() { src = format!("{{% filter {part} %}}{}", src); }
+                    // nested filter blocks apply innermost first: build `{% filter last %}{% filter first %}BODY{% endfilter %}{% endfilter %}`
+                    let opens: String = f.split('|').rev().map(|p| format!("{{% filter {p} %}}")).collect();
+                    let closes: String = f.split('|').map(|_| "{% endfilter %}").collect();
+                    let _ = src;
+                    check(&format!("{opens}{markup}{closes}"));
+                    n += 1;
+                }
+            }
+        }
+        assert!(n > 300, "{n}");
+    }
